@@ -25,13 +25,13 @@ M["M3_rename_fix_reverted"] = ("fastparquet/api.py", '''        files = {}
                 files[rg.columns[0].file_path] = (rgid, [rg])
 ''', "M")
 M["M4_single_pass_rename"] = ("fastparquet/api.py", '''            dst = join_path(basepath, parts, f'part.{rgid}.parquet.tmp')
-            self.fs.rename(src, dst)
+            rename(src, dst)
         # Give definitive names in a 2nd pass.
         for rgid, fname, rgs in renames:
             parts = partitions(fname)
             src = join_path(basepath, parts, f'part.{rgid}.parquet.tmp')
             dst_part''', '''            dst = join_path(basepath, parts, f'part.{rgid}.parquet')
-            self.fs.rename(src, dst)
+            rename(src, dst)
         # Give definitive names in a 2nd pass.
         for rgid, fname, rgs in renames:
             parts = partitions(fname)
